@@ -148,3 +148,32 @@ pub(crate) fn push_line(st: &mut LocalSpanStack, line: SpanLine) -> SpanLineHand
     st.span_lines.push(line);
     SpanLineHandle { span_line_epoch: epoch }
 }
+
+// C09 / C10: the same through the thread's stack: exit_span on a scope that is at its span limit
+// (scope built directly: capacity 2, two records, the second one open) restores the local parent.
+#[kani::proof]
+#[kani::unwind(3)]
+fn st_full_scope_exit_span() {
+    let a = any_item(true);
+    let id1 = SpanId(kani::any());
+    let id2 = SpanId(kani::any());
+    kani::assume(id1 != SpanId::default() && id2 != SpanId::default());
+    let r1 = crate::local::raw_span::RawSpan::begin_with(id1, SpanId::default(), fastant::Instant(5), N_A, crate::local::raw_span::RawKind::Span);
+    let r2 = crate::local::raw_span::RawSpan::begin_with(id2, id1, fastant::Instant(6), N_A, crate::local::raw_span::RawKind::Span);
+    let epoch: usize = kani::any();
+    let mut st = LocalSpanStack::with_capacity(4);
+    let _h = push_line(
+        &mut st,
+        crate::local::local_span_line::verif_harness::mk_line(
+            epoch,
+            Some(vec![a]),
+            crate::local::span_queue::verif_harness::mk_queue(vec![r1, r2], 2, Some(id2)),
+        ),
+    );
+    assert!(context(&st).2 == Some(id2));
+    assert!(st.enter_span(N_A).is_none(), "span recorded beyond the limit");
+    st.exit_span(crate::local::local_span_line::verif_harness::mk_local_handle(epoch, 1));
+    assert!(context(&st).2 == Some(id1), "exit_span on a scope at its span limit did not restore the enclosing local span");
+    std::mem::forget(st);
+    kani::cover!(true);
+}
